@@ -302,7 +302,7 @@ def stats(run, col):
 
 
 def shards(tier, seed):
-    return core_shards(ID, tier, seed, ncfg=(2 if tier == "quick" else 10), ncases=(8 if tier == "quick" else 20))
+    return core_shards(ID, tier, seed, ncfg=(2 if tier == "quick" else 5), ncases=(8 if tier == "quick" else 12))
 
 
 def run_shard(sh):
